@@ -8,6 +8,7 @@ import (
 	"github.com/justinas/alice"
 	middlewareapi "github.com/oauth2-proxy/oauth2-proxy/v7/pkg/apis/middleware"
 	"github.com/oauth2-proxy/oauth2-proxy/v7/pkg/apis/options"
+	"github.com/oauth2-proxy/oauth2-proxy/v7/pkg/middleware"
 )
 
 //assume: C01.gate: the handlers are entered with the request scope already populated by the session chain (whose loaders are checked by C01.load/C12.seq harnesses); route->handler dispatch by gorilla/mux is not executed
@@ -155,5 +156,34 @@ func vh_C01_gate_userinfo() {
 	} else {
 		verifReach("refused")
 		verifAssert("C01.userinfo.refused-status", g.rw.status == 401)
+	}
+}
+
+// C07 at the Proxy level: whatever the route to the upstream (authenticated or
+// bypassed, with or without a session), the request passes the strip+inject chain
+// verif: unwind=5 strlen=8 also=C01
+func vh_C07_proxy_wiring() {
+	g := vNewGate()
+	inj, err := middleware.NewRequestHeaderInjector([]options.Header{{
+		Name:   "X-Forwarded-User",
+		Values: []options.HeaderValue{{ClaimSource: &options.ClaimSource{Claim: "user"}}},
+	}})
+	verifAssume(err == nil)
+	g.p.headersChain = alice.New(inj)
+	spoof := ndString("client-x-forwarded-user")
+	g.req.Header["X-Forwarded-User"] = []string{spoof}
+	var seen http.Header
+	g.p.upstreamProxy = http.HandlerFunc(func(_ http.ResponseWriter, r *http.Request) { g.upstream++; seen = r.Header })
+	g.p.Proxy(g.rw, g.req)
+	if g.upstream > 0 {
+		verifReach("upstream")
+		got := seen["X-Forwarded-User"]
+		s := g.scope.Session
+		if s == nil || s.User == "" {
+			verifAssert("C07.proxy.no-session-no-identity-header", len(got) == 0)
+			verifReach("bypassed-without-session")
+		} else {
+			verifAssert("C07.proxy.identity-from-session", len(got) == 1 && got[0] == s.User)
+		}
 	}
 }
